@@ -1,9 +1,12 @@
 (* C07 — cache keys are deterministic and distinguish every distinct task. *)
 Require Import LT.Model.Values LT.Proofs.ValuesProofs LT.Proofs.KeyProofs LT.Gen.SrcParams.
 
-(* The serialised form determines the task: class, every field, value types, enum members and nested task
-   parameters at any depth — provided no dict parameter uses the marker keys "_is_task" / "_is_enum". *)
-Theorem C07_ser_injective : forall a b, no_reserved a = true -> no_reserved b = true -> ser a = ser b -> a = b.
+(* The serialised form (of the serialiser read from the current source: a dict parameter that spells a serialised task, enum
+   member or wrapped dict is wrapped) determines the task: class, every field, value types, enum members and nested task
+   parameters at any depth, whatever keys dict parameters use.  ([no_reserved]: no task *field* is called _is_task or
+   __class__, which no dataclass field can be.) *)
+Theorem C07_ser_injective : forall a b, no_reserved a = true -> no_reserved b = true ->
+  ser_of ser_mode_src a = ser_of ser_mode_src b -> a = b.
 Proof. exact ser_injective. Qed.
 Print Assumptions C07_ser_injective.
 
@@ -56,8 +59,10 @@ Theorem C07_key_before_post_init_refuted : exists (post_init : value -> option v
 Proof. exact key_before_post_init_refuted. Qed.
 Print Assumptions C07_key_before_post_init_refuted.
 
-(* The unguarded statement is false (known finding D9): a string-keyed dict can spell a serialised task. *)
-Theorem C07_unguarded_refuted : exists a b, a <> b /\ ser a = ser b.
+(* For a serialiser that never wraps dicts (the source before defect D9 was repaired) the statement is false: a string-keyed
+   dict can spell a serialised task. *)
+Theorem C07_unguarded_refuted : exists a b, a <> b /\ no_reserved a = true /\ no_reserved b = true /\
+  ser_of SerPlainDicts a = ser_of SerPlainDicts b.
 Proof. exact ser_unguarded_refuted. Qed.
 Print Assumptions C07_unguarded_refuted.
 
